@@ -24,6 +24,26 @@ def setX (v : Byte) : M Unit := modify fun r => { r with x := v }
 def setY (v : Byte) : M Unit := modify fun r => { r with y := v }
 def setSP (v : Byte) : M Unit := modify fun r => { r with sp := v }
 
+/-- `&c.A`, `&c.X`, ...: a pointer to one of the byte registers, as a value (used by the translation of Go helper
+    functions that take `*uint8`) -/
+inductive RegSel where
+  | a | x | y | sp | p
+deriving DecidableEq, Repr
+
+def getReg : RegSel → M Byte
+  | .a => do return (← get).a
+  | .x => do return (← get).x
+  | .y => do return (← get).y
+  | .sp => do return (← get).sp
+  | .p => do return (← get).p
+
+def setReg : RegSel → Byte → M Unit
+  | .a, v => setA v
+  | .x, v => setX v
+  | .y, v => setY v
+  | .sp, v => setSP v
+  | .p, v => setP v
+
 -- -------- Addressing modes (cpu/adressing.go) --------
 
 def getAddrAbsolute : M Addr := do
